@@ -5,10 +5,11 @@ P = {
     "level_text": "exploration: random well-conditioned networks, each converted by the library and checked against the defining relation of the output type on the states of the input; violations are shrunk to a minimal replayable case. Right level because the property quantifies over all complex matrices and impedances: sampling with per-case condition-scaled tolerances is what PBT can give.",
     "design_ref": "DESIGN.md section 3 C04",
     "sources": ["harness/props/C04.cpp"],
-    "rule": "one case = one of the 90 functions (uniform), n = 2 (two-port) or 1..6 (n-port), z0 class (all equal real / all equal complex / all different, Re z0 in [1,500], Im z0 in [-200,200]), n independent random states (dyadic, uniform or passive-ish power waves) turned into the input matrix by convref; cases whose conversion condition number exceeds 1e6 are rebuilt (label 'rebuilt'; 'filtered' if 6 attempts fail). Checked per case: defining relation of the output on the input's states, aliased call bit-identical, round trip, n-port vs two-port at n=2, zi/zin vs terminated input impedance. non-trivial = every evaluated (non-filtered) case, because the aliased call is made in every case (DESIGN rule: z0 unequal or complex, or n >= 3, or aliased call); the z0 class / n>=3 breakdown is in the histogram; distinct = distinct choice tapes",
+    "rule": "one case = one of the 90 functions (uniform), n = 2 (two-port) or 1..6 (n-port), z0 class (all equal real / all equal complex / all different, Re z0 in [1,500], Im z0 in [-200,200]), n independent random states (dyadic, uniform or passive-ish power waves, optionally at an impedance level 0.01..100 x z0) turned into the input matrix by convref, or the input matrix itself from small dyadic numbers including zeros; cases whose conversion condition number exceeds 1e6 are rebuilt (label 'rebuilt'; 'filtered' if 6 attempts fail). Checked per case: defining relation of the output on the input's states, aliased call bit-identical, round trip, n-port vs two-port at n=2, zi/zin vs terminated input impedance. non-trivial = every evaluated (non-filtered) case, because the aliased call is made in every case (DESIGN rule: z0 unequal or complex, or n >= 3, or aliased call); the z0 class / n>=3 breakdown is in the histogram; distinct = distinct choice tapes",
     "assumptions": COMMON_ASSUME + [
         "convref.hpp is a faithful reading of the tables of vnaconv(3) (power waves a=K(v+Zi)/2, b=K(v-Z*i)/2, K=1/sqrt|Re Z|; T: [b1;a1]=T[a2;b2]; U: [a2;b2]=U[b1;a1]; A: [v1;i1]=A[v2;-i2]; B: [v2;-i2]=B[v1;i1]); its self-test checks it on a series element and a 3-port star",
-        "tolerances are c*eps*kappa with kappa computed per case from the input (first-order perturbation bound, see convref.hpp) and c = 2000 calibrated >= 100x the largest ratio observed; inputs closer than kappa = 1e6 to the singular set are outside the claim",
+        "tolerances are c*eps*gamma*kappa in normalised units (voltages / sqrt|z0|, currents * sqrt|z0|) with kappa computed per case from the input (first-order perturbation bound, see convref.hpp), gamma = max |z0|/Re z0 for functions that take z0 (loss inherent to power waves with reactive reference impedances), c = 1000 calibrated >= 100x the largest ratio observed (8.3 over 9.6e6 cases); inputs closer than kappa = 1e6 to the singular set are outside the claim",
+        "exactly on the set zin_k = -z0_k (pole of the reflection coefficient; the network terminated in z0 at all ports has a natural mode) a non-finite result of a ...zi/...zin function is accepted and counted (label accepted:nonfinite-zin-at-pole-of-reflection), a finite one must be right; vnaconv(3) allows inf/nan where the conversion is nondeterministic",
     ],
     "tiers": tiers(
         quick=[{"name": "rand", "mode": "run", "count": 40000, "max_size": 100, "shards": 16}],
